@@ -27,6 +27,8 @@ pub enum Ex {
     NegPred(Box<Ex>),
     /// `PUSH(e) ~ mid.. ~ tail` where tail is POP / PEEK (+ optional DROP / PEEK_ALL / ...)
     StackBlock(Box<Ex>, Vec<Ex>, Vec<&'static str>),
+    /// `PUSH("lit")`, only generated as the first `mid` element of a StackBlock
+    Push2(String),
 }
 
 #[derive(Clone, Debug, PartialEq, Eq)]
@@ -43,8 +45,10 @@ pub struct Grammar {
     pub comment: bool,
 }
 
-const ALPHA: [char; 6] = ['a', 'b', 'c', ' ', '\n', 'é'];
-pub const BUILTINS: [&str; 8] = [
+/// a/b/c, blank, newline and multi-byte characters (two- and three-byte; 'à' and 'х' end in the
+/// bytes 0xA0 / 0x85 that are whitespace code points when misread as Latin-1)
+const ALPHA: [char; 9] = ['a', 'b', 'c', ' ', '\n', 'é', 'à', 'х', '日'];
+pub const BUILTINS: [&str; 11] = [
     "ANY",
     "SOI",
     "EOI",
@@ -53,6 +57,23 @@ pub const BUILTINS: [&str; 8] = [
     "NEWLINE",
     "ASCII_ALPHANUMERIC",
     "ASCII_HEX_DIGIT",
+    "LETTER",
+    "ALPHABETIC",
+    "ASCII",
+];
+
+/// stack inspections that never panic and never remove anything: usable as free-standing leaves
+pub const FREE_STACK_LEAVES: [&str; 5] = ["PEEK_ALL", "PEEK[..]", "PEEK[0..1]", "PEEK[-1..]", "PEEK[1..]"];
+
+const RANGES: [(char, char); 8] = [
+    ('a', 'c'),
+    ('a', 'a'),
+    ('b', 'c'),
+    ('a', 'é'),
+    ('à', 'é'),
+    ('а', 'я'),
+    ('一', '龥'),
+    ('\u{80}', '\u{10ffff}'),
 ];
 
 fn esc(s: &str) -> String {
@@ -94,6 +115,11 @@ impl Ex {
                 out.push_str(&format!("'{}'..'{}'", esc_char(*a), esc_char(*b)));
             }
             Ex::Builtin(b) => out.push_str(b),
+            Ex::Push2(l) => {
+                out.push_str("PUSH(\"");
+                out.push_str(&esc(l));
+                out.push_str("\")");
+            }
             Ex::Ref(i) => out.push_str(&g.rules[*i].name),
             Ex::Seq(xs) => {
                 out.push('(');
@@ -262,6 +288,11 @@ pub struct GenCfg {
     pub max_rules: usize,
     pub max_depth: usize,
     pub stack_ops: bool,
+    /// free-standing PEEK_ALL / PEEK[a..b] leaves. The validator treats them as progressing
+    /// although they match the empty string on an empty stack (a gap of property C06), so
+    /// `PEEK[..]*` can loop forever; they are generated only where every parse runs under a call
+    /// budget (C12/C15), never for the debugger worlds of C17.
+    pub free_stack_leaves: bool,
 }
 
 impl Default for GenCfg {
@@ -270,12 +301,19 @@ impl Default for GenCfg {
             max_rules: 6,
             max_depth: 4,
             stack_ops: true,
+            free_stack_leaves: true,
         }
     }
 }
 
 fn gen_lit(rng: &mut Rng, comment: bool) -> String {
-    let n = if rng.chance(3, 4) { 1 } else { 2 };
+    let n = if rng.chance(1, 25) {
+        rng.range(5, 12)
+    } else if rng.chance(3, 4) {
+        1
+    } else {
+        2
+    };
     let mut s = String::new();
     for _ in 0..n {
         if comment && rng.chance(1, 12) {
@@ -293,7 +331,7 @@ fn gen_lit(rng: &mut Rng, comment: bool) -> String {
     s
 }
 
-fn gen_leaf(rng: &mut Rng, rule: usize, nrules: usize, comment: bool) -> Ex {
+fn gen_leaf(rng: &mut Rng, rule: usize, nrules: usize, comment: bool, free_stack: bool) -> Ex {
     let k = rng.below(100);
     if k < 40 {
         Ex::Str(gen_lit(rng, comment))
@@ -305,9 +343,10 @@ fn gen_leaf(rng: &mut Rng, rule: usize, nrules: usize, comment: bool) -> Ex {
         }
         Ex::Insens(s)
     } else if k < 54 {
-        let lo = rng.below(3);
-        let hi = rng.range(lo, 2);
-        Ex::Range(ALPHA[lo], ALPHA[hi])
+        let (lo, hi) = RANGES[if rng.chance(2, 3) { rng.below(3) } else { rng.below(RANGES.len()) }];
+        Ex::Range(lo, hi)
+    } else if k < 56 && free_stack {
+        Ex::Builtin(FREE_STACK_LEAVES[rng.below(FREE_STACK_LEAVES.len())])
     } else if k < 64 {
         Ex::Builtin(BUILTINS[rng.below(BUILTINS.len())])
     } else if rule + 1 < nrules {
@@ -319,7 +358,7 @@ fn gen_leaf(rng: &mut Rng, rule: usize, nrules: usize, comment: bool) -> Ex {
 
 fn gen_ex(rng: &mut Rng, rule: usize, nrules: usize, depth: usize, cfg: &GenCfg, comment: bool) -> Ex {
     if depth == 0 || rng.chance(1, 4) {
-        return gen_leaf(rng, rule, nrules, comment);
+        return gen_leaf(rng, rule, nrules, comment, cfg.free_stack_leaves);
     }
     let k = rng.below(100);
     let sub = |rng: &mut Rng| Box::new(gen_ex(rng, rule, nrules, depth - 1, cfg, comment));
@@ -357,7 +396,30 @@ fn gen_ex(rng: &mut Rng, rule: usize, nrules: usize, depth: usize, cfg: &GenCfg,
             _ => Ex::Str(gen_lit(rng, false)),
         });
         let nmid = rng.below(3);
-        let mid: Vec<Ex> = (0..nmid).map(|_| gen_leaf(rng, rule, nrules, comment)).collect();
+        let mut mid: Vec<Ex> = (0..nmid)
+            .map(|_| {
+                if rng.chance(1, 3) {
+                    gen_ex(
+                        rng,
+                        rule,
+                        nrules,
+                        1,
+                        &GenCfg {
+                            stack_ops: false,
+                            free_stack_leaves: cfg.free_stack_leaves,
+                            ..GenCfg::default()
+                        },
+                        comment,
+                    )
+                } else {
+                    gen_leaf(rng, rule, nrules, comment, cfg.free_stack_leaves)
+                }
+            })
+            .collect();
+        if rng.chance(1, 3) {
+            // a second entry on the stack (the block stays net-positive)
+            mid.insert(0, Ex::Push2(gen_lit(rng, false)));
+        }
         // every block is stack-neutral or net-positive, so a nested block (through a rule
         // reference in `mid`) can never remove what an enclosing block pushed
         let pop = rng.chance(1, 2);
@@ -371,7 +433,7 @@ fn gen_ex(rng: &mut Rng, rule: usize, nrules: usize, depth: usize, cfg: &GenCfg,
         }
         Ex::StackBlock(p, mid, tail)
     } else {
-        gen_leaf(rng, rule, nrules, comment)
+        gen_leaf(rng, rule, nrules, comment, cfg.free_stack_leaves)
     }
 }
 
@@ -455,8 +517,38 @@ impl Sampler<'_> {
                 "ASCII_ALPHA" | "ASCII_ALPHANUMERIC" => out.push(['a', 'b', 'c', 'Z'][self.rng.below(4)]),
                 "ASCII_HEX_DIGIT" => out.push(['a', 'b', 'c', '7', 'F'][self.rng.below(5)]),
                 "NEWLINE" => out.push('\n'),
+                "LETTER" | "ALPHABETIC" => out.push(['a', 'é', 'х', '日'][self.rng.below(4)]),
+                "ASCII" => out.push(['a', ' ', 'c'][self.rng.below(3)]),
+                "PEEK_ALL" | "PEEK[..]" => {
+                    // whole stack (top to bottom for PEEK_ALL); sometimes only a partial match
+                    let mut parts: Vec<String> = self.stack.clone();
+                    if *b == "PEEK_ALL" {
+                        parts.reverse();
+                    }
+                    if self.rng.chance(1, 2) && parts.len() > 1 {
+                        parts.truncate(1);
+                        parts.push("a".into());
+                    }
+                    for p in parts {
+                        out.push_str(&p);
+                    }
+                }
+                "PEEK[0..1]" => {
+                    if let Some(s) = self.stack.first() {
+                        out.push_str(&s.clone())
+                    }
+                }
+                "PEEK[-1..]" => {
+                    if let Some(s) = self.stack.last() {
+                        out.push_str(&s.clone())
+                    }
+                }
                 _ => {}
             },
+            Ex::Push2(l) => {
+                out.push_str(l);
+                self.stack.push(l.clone());
+            }
             Ex::Ref(i) => {
                 if depth > 0 {
                     let body = self.g.rules[*i].body.clone();
@@ -610,6 +702,7 @@ fn shrink_ex(e: &Ex) -> Vec<Ex> {
         Ex::Insens(s) => out.push(Ex::Str(s.clone())),
         Ex::Range(a, _) => out.push(Ex::Str(a.to_string())),
         Ex::Builtin(_) => out.push(Ex::Str("a".into())),
+        Ex::Push2(l) if l.chars().count() > 1 => out.push(Ex::Push2(l.chars().take(1).collect())),
         Ex::Seq(xs) | Ex::Choice(xs) if xs.len() > 2 => {
             for i in 0..xs.len() {
                 let mut ys = xs.clone();
